@@ -713,4 +713,68 @@ pub struct MPMCFutSender<T> {""")]),
             unsafe {
                 let current_group = &*current_ptr;
                 let raw = (*reader.pos).pos_data.load_raw(Ordering::Relaxed);""")], kind='refactor'),
+
+    # ---------------------------------------------------------------- extra rules
+    V('scan-min-fold', 'C03', ['P10g'], [E(RC, "max_diff = if diff > max_diff { diff } else { max_diff };", "max_diff = if diff < max_diff || max_diff == 0 { diff } else { max_diff };")]),
+    V('update-token-no-store', 'C17', ['P12e'], [E(MEM, """            if token_e != epoch {
+                token.epoch.store(epoch, Ordering::Release);
+            }""", """            if token_e > epoch {
+                token.epoch.store(epoch, Ordering::Release);
+            }""")]),
+    V('startfree-no-signal', 'C17', ['P12f'], [E(MEM, """                self.epoch
+                    .store(cur_epoch.wrapping_add(1), Ordering::Release);
+                self.signal.set_epoch(Ordering::Release);""", """                self.epoch
+                    .store(cur_epoch.wrapping_add(1), Ordering::Release);""")]),
+    V('recv-handle-signals-no-announce', 'C17', ['P12g'], [E(MQ, """    #[cold]
+    fn handle_signals(&self, signal: LoadedSignal) {
+        if signal.get_epoch() {
+            self.queue.manager.update_token(self.token);
+        }
+    }""", """    #[cold]
+    fn handle_signals(&self, signal: LoadedSignal) {
+        let _ = signal.get_epoch();
+    }""")]),
+    V('fut-addstream-lists-swapped', 'C14', ['P11g'], [E(MQ, """        let rx = self.reader.add_stream();
+        FutInnerRecv {
+            reader: rx,
+            wait: self.wait.clone(),
+            prod_wait: self.prod_wait.clone(),
+        }""", """        let rx = self.reader.add_stream();
+        FutInnerRecv {
+            reader: rx,
+            wait: self.prod_wait.clone(),
+            prod_wait: self.wait.clone(),
+        }""")]),
+    V('fut-ctor-same-list', 'C14', ['P11g'], [E(MQ, """    let rtx = FutInnerRecv {
+        reader: rx,
+        wait: cons_arc,
+        prod_wait: prod_arc,
+    };
+    (ftx, rtx)
+}
+
+/// Usage: futures_multiqueue_with""", """    let rtx = FutInnerRecv {
+        reader: rx,
+        wait: cons_arc.clone(),
+        prod_wait: cons_arc,
+    };
+    let _ = prod_arc;
+    (ftx, rtx)
+}
+
+/// Usage: futures_multiqueue_with""")]),
+    V('signal-bits-overlap', 'C13', ['W10'], [E('src/atomicsignal.rs', "const NO_READER: usize = 1 << 1;", "const NO_READER: usize = 1 << 0;")]),
+    V('refiter-blocks', 'C09', ['S3'], [E('src/mpmc.rs', """impl<'a, T> Iterator for MPMCRefIter<'a, T> {
+    type Item = T;
+
+    #[inline(always)]
+    fn next(&mut self) -> Option<T> {
+        match self.recv.try_recv() {""", """impl<'a, T> Iterator for MPMCRefIter<'a, T> {
+    type Item = T;
+
+    #[inline(always)]
+    fn next(&mut self) -> Option<T> {
+        match self.recv.recv() {""")]),
+    V('rf-scan-max-call', None, [], [E(RC, "max_diff = if diff > max_diff { diff } else { max_diff };", "max_diff = ::std::cmp::max(diff, max_diff);")], kind='refactor'),
+    V('rf-scan-max-flipped', None, [], [E(RC, "max_diff = if diff > max_diff { diff } else { max_diff };", "if max_diff < diff { max_diff = diff; }")], kind='refactor'),
 ]
